@@ -195,30 +195,26 @@ class _GridUFuncSignature:
         identical, the signatures must not be equivalent. Axes positions do have to match exactly.
         """
 
-        def set_unique_inds(sig_part):
-            return set([i for arg in sig_part for i in arg])
+        def canonical(sig):
+            # number the dummy names in order of first appearance
+            numbering: Dict[str, int] = {}
+            return [
+                [
+                    tuple(numbering.setdefault(ax, len(numbering)) for ax in arg)
+                    for arg in part
+                ]
+                for part in (sig.in_ax_names, sig.out_ax_names)
+            ]
 
-        all_unique_sig1_indices = set_unique_inds(self.in_ax_names) | set_unique_inds(
-            self.out_ax_names
+        def positions(sig):
+            return [
+                [tuple(arg) for arg in part]
+                for part in (sig.in_ax_positions, sig.out_ax_positions)
+            ]
+
+        return positions(self) == positions(other) and canonical(self) == canonical(
+            other
         )
-        all_unique_sig2_indices = set_unique_inds(other.in_ax_names) | set_unique_inds(
-            other.out_ax_names
-        )
-
-        if len(all_unique_sig1_indices) != len(all_unique_sig2_indices):
-            return False
-
-        sig1_replaced = str(self)
-        sig2_replaced = str(other)
-        for dummy1, dummy2, common_replacement in zip(
-            all_unique_sig1_indices,
-            all_unique_sig2_indices,
-            self._REPLACEMENT_DUMMY_INDEX_NAMES,
-        ):
-            sig1_replaced = sig1_replaced.replace(dummy1, common_replacement)
-            sig2_replaced = sig2_replaced.replace(dummy2, common_replacement)
-
-        return sig1_replaced == sig2_replaced
 
 
 def _parse_signature_from_string(
